@@ -27,6 +27,7 @@ type Engine struct {
 	effCache   map[*ssa.Function]*Effects
 	funcs      map[string]*ssa.Function
 	loadSecs   float64
+	implCache  map[string][]devImpl
 	inlineDeps map[string]bool // dependency packages whose small functions are followed (built on demand)
 	built      map[*ssa.Package]bool
 }
@@ -125,7 +126,7 @@ func loadEngine(repo string, patterns []string) (*Engine, error) {
 	}
 	prog, _ := ssautil.Packages(pkgs, ssa.InstantiateGenerics)
 	e := &Engine{repo: repo, prog: prog, pkgs: pkgs, byPath: map[string]*packages.Package{}, typeTags: map[string]int{},
-		effCache: map[*ssa.Function]*Effects{}, funcs: map[string]*ssa.Function{}, built: map[*ssa.Package]bool{},
+		effCache: map[*ssa.Function]*Effects{}, funcs: map[string]*ssa.Function{}, built: map[*ssa.Package]bool{}, implCache: map[string][]devImpl{},
 		inlineDeps: map[string]bool{
 			"github.com/lightningnetwork/lnd/lnrpc":           true,
 			"github.com/lightningnetwork/lnd/lnrpc/routerrpc": true,
